@@ -178,12 +178,23 @@ package phase5
 //@       && ((result[0] == e.From && result[len(result)-1] == e.To) || (result[0] == e.To && result[len(result)-1] == e.From))
 //@       && e.From == old(e.From) && !e.To.IsVirtual
 //@   ensures[inner|C05,C06] forall k int :: 0 < k && k < len(result) - 1 ==> result[k] != nil && result[k].IsVirtual
+//@   ensures[arrow|C05] e.IsReversed == old(e.IsReversed) && e.ArrowHeadStart == e.IsReversed
+//@   ensures[arrowframe|C05] forall x *Edge :: x.IsReversed == old(x.IsReversed) && (x != e ==> x.ArrowHeadStart == old(x.ArrowHeadStart))
 //@   loop for(e.To.IsVirtual)#1
 //@     invariant forall k int :: 0 < k && k < len(ns) ==> ns[k] != nil && ns[k].IsVirtual
 //@     invariant e.From == old(e.From) && e.To != nil && helpersChain() && len(ns) >= 1 && ns[0] == e.From
 //@     invariant arr(ns) == 0 || !old(allocatedArr(now(ns)))
 //@     invariant forall n *Node, m *Node :: len(n.Out) == 0 || (allocatedArr(n.Out) && arr(n.Out) != arr(m.In) && arr(n.Out) != arr(g.Edges))
 //@     invariant forall n *Node, k int :: 0 <= k && k < len(n.Out) ==> n.Out[k] == old(n.Out[k])
+
+// mergeLongEdges (C05, arrowhead half): every edge handed to the routers carries ArrowHeadStart == IsReversed, i.e. the
+// flag records exactly whether cycle breaking reversed the edge. Routes are built for the edge in its reversed
+// direction; UnreverseEdges (C02) then swaps the ends back, so the route's last point - the arrowhead by default - sits
+// at the restored source exactly when the flag says so.
+//@ func mergeLongEdges
+//@   ensures[arrow|C05] forall k int :: 0 <= k && k < len(result) ==> result[k].Edge != nil ==> result[k].Edge.ArrowHeadStart == result[k].Edge.IsReversed
+//@   loop range(g.Edges)#1 index a
+//@     invariant[|C05] forall k int :: 0 <= k && k < len(routes) ==> routes[k].Edge != nil ==> routes[k].Edge.ArrowHeadStart == routes[k].Edge.IsReversed
 
 // buildRects (C01): the corridor of a route needs every route node in a band that exists, bands with a helper node
 // holding at least one more node, and helper nodes at the position recorded in LayerPos
